@@ -91,6 +91,15 @@ func NondetBytes(name string, n int) []byte {
 // Choice returns an arbitrary value in 0..n-1 (a case split under the engine).
 func Choice(name string, n int) int { return int(val(name)) }
 
+// Param is a bound of the harness that a tier may raise (props.json "params"); def applies
+// when the job does not set it. Natively the counterexample's value is used.
+func Param(name string, def int) int {
+	if v, ok := replayVals["param:"+name]; ok {
+		return int(v)
+	}
+	return def
+}
+
 // Shard is a Choice that parallel workers partition among themselves.
 func Shard(n int) int { return int(val("shard")) }
 
